@@ -63,9 +63,11 @@ impl std::ops::Sub for ExBudget {
     type Output = Self;
 
     fn sub(self, rhs: Self) -> Self::Output {
+        // A builtin costed by the value of an integer argument can drive the remaining budget to
+        // the bottom of the range; the difference then saturates instead of overflowing.
         ExBudget {
-            mem: self.mem - rhs.mem,
-            cpu: self.cpu - rhs.cpu,
+            mem: self.mem.saturating_sub(rhs.mem),
+            cpu: self.cpu.saturating_sub(rhs.cpu),
         }
     }
 }
